@@ -801,4 +801,7 @@ def run(ctx, report):
     # "a byte string or text is accepted only if ..": the text is that record's text form (exact prefix handling)
     from rules import c12
     c12._own_run(ctx, Only(report, {"PREFIX": "TEXT-PREFIX"}))
+    # the outcome of a call is decided by its arguments: no static carries state from one call to the next
+    from rules.purity import hidden_state
+    hidden_state(ctx, report)
 
